@@ -1,16 +1,35 @@
 /-
   Deferred-execution ("LINQ") reading of the query semantics.
 
-  Same expression semantics as Fadl/Sem.lean, except for sequences: `Select`, `Where`, `SelectMany`
-  never fail themselves — an element whose computation fails becomes a `Val.poison` element that
-  fails when, and only when, it is demanded; `First` and subscripting demand one element; `Count`,
-  `len`, `Sum`, `Max`, `Min`, `Aggregate` and Python's own comprehensions demand all of them.
+  Same expression semantics as Fadl/Sem.lean, except for sequences: `Select` never fails itself — an
+  element whose computation fails becomes a `Val.poison` element that fails when, and only when, it is
+  demanded; `First` and subscripting demand one element; `Where` and `SelectMany` demand every element of
+  their source (they decide about each) but not the elements of the sequences they produce; `Count`,
+  `len`, `Sum`, `Max`, `Min`, `Aggregate` and Python's own comprehensions demand all elements.  Anything that
+  inspects a value as a whole - comparison, dictionary lookup, a function or method of the world - demands
+  it completely.  A method of the world is only ever called on a record.
   This is the meaning under which the chained-call simplifier's rewrites
   (`f(First(s))  ⇒  First(Select(s, f))`, …) are value preserving, and the one the oracles of
   C02 / C14 / C18 / C01 evaluate with.
 -/
 import Fadl.Sem
 namespace Fadl
+
+mutual
+/-- no deferred failure anywhere inside the value -/
+def Val.clean : Val → Bool
+  | .poison _ => false
+  | .tuple vs => Val.cleanL vs
+  | .list vs => Val.cleanL vs
+  | .dict ks vs => Val.cleanL ks && Val.cleanL vs
+  | .obj _ _ fvs => Val.cleanL fvs
+  | _ => true
+def Val.cleanL : List Val → Bool
+  | [] => true
+  | v :: vs => v.clean && Val.cleanL vs
+end
+
+def uncleanErr : EErr := .type "deferred failure inside a value that is inspected as a whole"
 
 def getIndexLz (vs : List Val) (i : Int) : Res :=
   let n : Int := vs.length
@@ -20,13 +39,43 @@ def getIndexLz (vs : List Val) (i : Int) : Res :=
     | some v => force v
     | Option.none => .error .index
 
+/-- subscripting: a list element is demanded; a dictionary is searched only when the key and the dictionary's
+    keys contain no deferred failure (comparing would demand it) -/
 def subscriptLz (v s : Val) : Res :=
   match v, s with
   | .list vs, .slice lo hi st => (getSlice vs lo hi st).map .list
   | .list vs, s => match asInt s with
     | some i => getIndexLz vs i
     | Option.none => .error (.type "list index")
+  | .dict ks vs, k => if k.clean && Val.cleanL ks then subscript (.dict ks vs) k else .error uncleanErr
   | v, s => subscript v s
+
+def getAttrLz (v : Val) (a : String) : Res :=
+  match v with
+  | .dict ks _ => if Val.cleanL ks then getAttr v a else .error uncleanErr
+  | _ => getAttr v a
+
+def mkDictLz (ks vs : List Val) : Res := if Val.cleanL ks then mkDict ks vs else .error uncleanErr
+
+/-- comparison demands both operands completely -/
+def cmpOneLz (o : String) (a b : Val) : Except EErr Bool :=
+  if a.clean && b.clean then cmpOne o a b else .error uncleanErr
+
+def cmpChainLz : Val → List String → List Res → Res
+  | _, [], _ => .ok (.bool true)
+  | _, _ :: _, [] => .error .arity
+  | l, o :: os, r :: rs => do
+    let rv ← r
+    let b ← cmpOneLz o l rv
+    if b then
+      (match os with
+       | [] => .ok (.bool true)
+       | _ => cmpChainLz rv os rs)
+    else .ok (.bool false)
+
+def evOpLz : OpKind → List Res → Res
+  | .cmp ops, l :: rest => do let lv ← l; cmpChainLz lv ops rest
+  | k, rs => evOp k rs
 
 /-- operators that consume the whole sequence (`First` only its first element) -/
 def seqOp1Lz (n : String) (vs : List Val) : Res :=
@@ -35,27 +84,30 @@ def seqOp1Lz (n : String) (vs : List Val) : Res :=
     let xs ← forceAll vs
     seqOp1 n xs
 
-/-- the elements `Where` keeps for one element of its source -/
-def whereElem (f : Val → Res) (v : Val) : List Val :=
-  match force v with
-  | .error e => [.poison e]
-  | .ok x =>
-    match f x with
-    | .error e => [.poison e]
-    | .ok b => if truthy b then [x] else []
+/-- `Where` decides about every element: it demands each one and the predicate on it -/
+def whereLz (f : Val → Res) : List Val → Except EErr (List Val)
+  | [] => .ok []
+  | v :: vs => do
+    let x ← force v
+    let b ← f x
+    let rest ← whereLz f vs
+    pure (if truthy b then x :: rest else rest)
 
-/-- the elements `SelectMany` produces for one element of its source -/
-def manyElem (f : Val → Res) (v : Val) : List Val :=
-  match force v >>= f with
-  | .error e => [.poison e]
-  | .ok (.list inner) => inner
-  | .ok _ => [.poison (.type "sequence expected")]
+/-- `SelectMany` needs every inner sequence (not their elements) -/
+def manyLz (f : Val → Res) : List Val → Except EErr (List Val)
+  | [] => .ok []
+  | v :: vs => do
+    let x ← force v
+    let r ← f x
+    let inner ← asSeq r
+    let rest ← manyLz f vs
+    pure (inner ++ rest)
 
-/-- the deferred-execution operators -/
+/-- the deferred-execution operators: `Select` maps lazily (a failing element is a deferred failure) -/
 def seqOp2Lz (n : String) (f : Val → Res) (vs : List Val) : Res :=
   if n = "Select" then .ok (.list (vs.map (fun v => lazyElem (force v >>= f))))
-  else if n = "Where" then .ok (.list (vs.flatMap (whereElem f)))
-  else if n = "SelectMany" then .ok (.list (vs.flatMap (manyElem f)))
+  else if n = "Where" then (whereLz f vs).map .list
+  else if n = "SelectMany" then (manyLz f vs).map .list
   else .error .arity
 
 def fnCallLz (w : World) (n : String) (args : List Den) (lamsTail : List LamD)
@@ -79,16 +131,29 @@ def fnCallLz (w : World) (n : String) (args : List Den) (lamsTail : List LamD)
   else do
     let vs ← evalAll args env
     let kvs ← evalAll kwv env
-    w.func n vs kwn kvs
+    if Val.cleanL vs && Val.cleanL kvs then w.func n vs kwn kvs else .error uncleanErr
 
+/-- functions and methods of the world are strict: they receive complete values; only records have methods -/
 def callSemLz (w : World) (h : Head) (args : List Den) (lams : List LamD)
     (kwn : List String) (kwv : List Den) : Den :=
   match h with
   | .fn n => fnCallLz w n args lams.tail kwn kwv
   | .meth recv m =>
     if m ∈ opNames then fnCallLz w m (recv :: args) lams [] []
-    else callSem w h args lams kwn kwv
-  | _ => callSem w h args lams kwn kwv
+    else fun env => do
+      let r ← recv env
+      let vs ← evalAll args env
+      let kvs ← evalAll kwv env
+      match r with
+      | .obj _ _ _ =>
+        if r.clean && Val.cleanL vs && Val.cleanL kvs then w.method m r vs kwn kvs else .error uncleanErr
+      | _ => .error (.type "method call on something that is not a record")
+  | .lamH ps body => fun env => do
+    let vs ← evalAll args env
+    let kvs ← evalAll kwv env
+    let env' ← bindParams ps vs kwn kvs env
+    body env'
+  | .other => fun _ => .error (.unsupported "callee is not a name, attribute or lambda")
 
 def compSemLz (target : Option String) (elt iter : Den) (ifs : List Den) (isAsync : Bool) : Den := fun env =>
   match target, isAsync with
@@ -106,7 +171,7 @@ def denLz (w : World) : Expr → Den
     | some v => .ok v
     | Option.none => .error (.unbound x)
   | .const c => fun _ => constVal c
-  | .attr v a => fun env => do let x ← denLz w v env; getAttr x a
+  | .attr v a => fun env => do let x ← denLz w v env; getAttrLz x a
   | .call f args kwn kwv =>
     callSemLz w (denHeadLz w f) (denLLz w args) (denLamLLz w args) kwn (denLLz w kwv)
   | .lam _ _ => fun _ => .error (.unsupported "lambda as a value")
@@ -119,8 +184,8 @@ def denLz (w : World) : Expr → Den
   | .dict ks vs => fun env => do
     let kv ← evalAll (denLLz w ks) env
     let vv ← evalAll (denLLz w vs) env
-    if kv.length = vv.length then mkDict kv vv else .error .arity
-  | .op k args => fun env => evOp k ((denLLz w args).map (· env))
+    if kv.length = vv.length then mkDictLz kv vv else .error .arity
+  | .op k args => fun env => evOpLz k ((denLLz w args).map (· env))
   | .comp _ e t i ifs a => compSemLz (targetName t) (denLz w e) (denLz w i) (denLLz w ifs) a
 def denLLz (w : World) : List Expr → List Den
   | [] => []
@@ -141,18 +206,5 @@ end
 /-- `evLz w env e` : the value of query `e` under deferred execution. -/
 def evLz (w : World) (env : Env) (e : Expr) : Res := denLz w e env
 
-mutual
-/-- no deferred failure anywhere inside the value -/
-def Val.clean : Val → Bool
-  | .poison _ => false
-  | .tuple vs => Val.cleanL vs
-  | .list vs => Val.cleanL vs
-  | .dict ks vs => Val.cleanL ks && Val.cleanL vs
-  | .obj _ _ fvs => Val.cleanL fvs
-  | _ => true
-def Val.cleanL : List Val → Bool
-  | [] => true
-  | v :: vs => v.clean && Val.cleanL vs
-end
 
 end Fadl
